@@ -321,12 +321,17 @@ class Gen:
             s1 = new_scope("sub1", "submodule")
             s1.update({"ancestor": anc, "parent": None})
             subs.append(s1)
-            self.gen_scope(units, s1, host_chain(prog, s1) + [s1], 0)
+            # a submodule whose ancestor module is not in the project stays empty: FORD drops its USE
+            # dependencies from the processing order (Project.correlate `continue`s), a C06 matter
+            known = bool(host_chain(prog, s1))
+            if known:
+                self.gen_scope(units, s1, host_chain(prog, s1) + [s1], 0)
             if rng.random() < 0.6:
                 s2 = new_scope("sub2", "submodule")
                 s2.update({"ancestor": anc, "parent": spell(rng, "sub1")})
                 subs.append(s2)
-                self.gen_scope(units, s2, host_chain(prog, s2) + [s2], 0)
+                if known:
+                    self.gen_scope(units, s2, host_chain(prog, s2) + [s2], 0)
         return prog
 
 
